@@ -113,6 +113,10 @@ def main(chk):
             while directed_targets and len(names) < 3:
                 data, names, sizes = dprec.make_data(rng)
             params = dprec.gen_params(rng, name, names)
+            if name == 'mwem':
+                # every combination of noise kind (incl. the capitalised spelling) and adjacency is covered in turn, not left to chance
+                combos = [('laplace', True), ('gaussian', True), ('laplace', False), ('gaussian', False), ('Laplace', True), ('gaussian', True), ('laplace', True), ('gaussian', False)]
+                params['noise'], params['bounded'] = combos[chk.dist.get('mechanism.mwem', 0) % len(combos)]
             if directed_targets:
                 params['targets'] = [names[-1]]            # with targets step 1 measures a downward closure that is larger than the list it starts from
         info = dict(mechanism=name, params={k: (v if not isinstance(v, list) else [(list(x) if isinstance(x, (list, tuple)) else x) for x in v]) for k, v in params.items()}, attrs=names, sizes=sizes, records=int(data.df.shape[0]))
